@@ -339,9 +339,28 @@ def measure_anchor_coverage(fn):
     try:
         an = cov._analyze(path)
         nums = an.numbers
+        # statements executed at import time (module / class level, def and decorator lines) were run before
+        # the measurement started when the module was already imported: do not count them as missing
+        import ast
+        tree = ast.parse(open(path).read())
+        import_time = set()
+
+        def walk(body):
+            for n in body:
+                first = min([n.lineno] + [d.lineno for d in getattr(n, "decorator_list", [])])
+                if isinstance(n, (ast.FunctionDef, ast.AsyncFunctionDef)):
+                    import_time.update(range(first, n.body[0].lineno))
+                elif isinstance(n, ast.ClassDef):
+                    import_time.update(range(first, n.body[0].lineno))
+                    walk(n.body)
+                else:
+                    import_time.update(range(n.lineno, (n.end_lineno or n.lineno) + 1))
+        walk(tree.body)
+        missing_fn = sorted(l for l in an.missing if l not in import_time)
         return res, {"available": True, "file": "src/dateutil/parser/isoparser.py",
-                     "statements": nums.n_statements, "missing_statements": nums.n_missing,
+                     "statements": nums.n_statements,
+                     "missing_statements_inside_functions": len(missing_fn),
                      "branches": nums.n_branches, "missing_branches": nums.n_missing_branches,
-                     "missing_lines": sorted(an.missing)[:40]}
+                     "missing_lines_inside_functions": missing_fn[:60]}
     except Exception as ex:
         return res, {"available": False, "error": repr(ex)}
